@@ -290,6 +290,17 @@ def patch_modules():
     driver.load_track = lambda cfg, install_dependencies=False: None
     driver.track.set_absolute_data_path = lambda cfg, t: None
     driver.Driver.__init__.__defaults__ = (StubFactory,)
+
+    class ProgressRecorder:
+        """stands for console.progress() when a scenario asks for the progress messages (quiet mode off)"""
+
+        def print(self, message, progress):
+            SIM.progress_log.append((SIM.clock, message, progress))
+
+        def finish(self):
+            SIM.progress_log.append((SIM.clock, None, None))
+
+    driver.console.progress = lambda *a, **k: ProgressRecorder()
     driver.client.EsClientFactory = StubFactory
     driver.net.resolve = lambda h: h
     # observe (not alter) the executor of each client: start / end of AsyncExecutor.__call__
@@ -370,7 +381,7 @@ def make_config(scenario):
     cfg.add(A, "system", "time.start", datetime.datetime(2017, 8, 20, 1, 0, 0))
     cfg.add(A, "system", "race.id", "6ebc6e53-ee20-4b0c-99b4-09697987e9f4")
     cfg.add(A, "system", "available.cores", scenario.get("cores", 2))
-    cfg.add(A, "system", "quiet.mode", True)
+    cfg.add(A, "system", "quiet.mode", not scenario.get("record_progress", False))
     cfg.add(A, "node", "root.dir", "/nonexistent-sim-root")
     cfg.add(A, "track", "challenge.name", "default")
     cfg.add(A, "track", "params", {})
@@ -565,6 +576,7 @@ class Sim:
         self.trace = []
         self.notes = []
         self.request_log = []
+        self.progress_log = []
         self.registration_listeners = set()
         self.executors = {}  # worker key -> dict(loop, task, future)
         self.call_counter = collections.Counter()
